@@ -68,13 +68,15 @@ void QXmppIncomingClientPrivate::checkCredentials(const QByteArray &response)
         request.setPassword(saslServer->password());
 
         QXmppPasswordReply *reply = passwordChecker->checkPassword(request);
-        reply->setParent(q);
+        // the reply belongs to this SASL exchange: it is discarded with the SASL server object
+        // when the exchange is superseded (new <auth/>, stream restart)
+        reply->setParent(saslServer.get());
         reply->setProperty("__sasl_raw", response);
         QObject::connect(reply, &QXmppPasswordReply::finished,
                          q, &QXmppIncomingClient::onPasswordReply);
     } else if (saslServer->mechanism() == u"DIGEST-MD5") {
         QXmppPasswordReply *reply = passwordChecker->getDigest(request);
-        reply->setParent(q);
+        reply->setParent(saslServer.get());
         reply->setProperty("__sasl_raw", response);
         QObject::connect(reply, &QXmppPasswordReply::finished,
                          q, &QXmppIncomingClient::onDigestReply);
